@@ -511,3 +511,56 @@ def k2_set_ops(opname, P, inplace, conform=True):
         val = {"ok": {1, 3}, "bad-elem": {1, "s"}, "list": [1, 2]}[kind]
         return _mk("with_vals", lambda o: o.with_vals(val, **kw), [val], inplace, kind == "bad-elem", note=kind)
     raise AssertionError(opname)
+
+
+
+# ---------------------------------------------------------------------------------------------------------------------
+# K4: keyed containers assigned as a whole (pre-built KeyedList / KeyedSet / list values holding ill-typed elements)
+
+K4_OPS = ["ctor_items", "setattr_items", "with_items", "update_items", "ctor_bag", "with_bag", "with_lst", "with_item_obj", "with_bag_item_obj"]
+
+
+def build_k4(NS, P):
+    return NS.K4(items=[NS.Item("a", v=P["x0"])], bag=[NS.Item("b", v=P["n0"])], lst=[NS.Item("c")])
+
+
+def k4_ops(NS, opname, P, inplace, conform=True):
+    from spec_classes.types import KeyedList, KeyedSet
+
+    kw = {"_inplace": True} if inplace else {}
+    good = NS.Item("z", v=P["i1"])
+    bad = pick([3.5, 7, None, ("t",)], P["bad"])
+    elems = [good] if conform else ([good, bad] if P["b1"] else [bad, good])
+    kind = pick(["keyed", "plain"], P["fk"] % 2 if False else (0 if P["b1"] else 1)) if False else ("keyed" if P["sel3"] % 2 == 0 else "plain")
+    if opname.endswith("items") or opname == "ctor_items":
+        val = KeyedList(elems, key=lambda it: getattr(it, "k", it)) if kind == "keyed" else list(elems)
+    elif "bag" in opname and not opname.endswith("obj"):
+        val = KeyedSet(elems, key=lambda it: getattr(it, "k", repr(it))) if kind == "keyed" else list(elems)
+    else:
+        val = list(elems)
+    if opname == "ctor_items":
+        return _mk("K4(items=...)", lambda o: NS.K4(items=val), [val], False, not conform, note=kind)
+    if opname == "ctor_bag":
+        return _mk("K4(bag=...)", lambda o: NS.K4(bag=val), [val], False, not conform, note=kind)
+    if opname == "setattr_items":
+
+        def call(o):
+            o.items = val
+            return o
+
+        return _mk("setattr_items", call, [val], True, not conform, note=kind)
+    if opname == "with_items":
+        return _mk("with_items", lambda o: o.with_items(val, **kw), [val], inplace, not conform, note=kind)
+    if opname == "update_items":
+        return _mk("update(items=)", lambda o: o.update(items=val, **kw), [val], inplace, not conform, note=kind)
+    if opname == "with_bag":
+        return _mk("with_bag", lambda o: o.with_bag(val, **kw), [val], inplace, not conform, note=kind)
+    if opname == "with_lst":
+        return _mk("with_lst", lambda o: o.with_lst(val, **kw), [val], inplace, not conform, note=kind)
+    if opname == "with_item_obj":
+        x = good if conform else bad
+        return _mk("with_item(obj)", lambda o: o.with_item(x, **kw), [x], inplace, not conform)
+    if opname == "with_bag_item_obj":
+        x = good if conform else bad
+        return _mk("with_bag_item(obj)", lambda o: o.with_bag_item(x, **kw), [x], inplace, not conform)
+    raise AssertionError(opname)
